@@ -35,7 +35,7 @@ TReset ==
   /\ sent' = <<>> /\ wsq' = <<>> /\ packed' = 0 /\ net' = <<>> /\ eof' = FALSE /\ abuf' = <<>>
   /\ rbuf' = <<>> /\ roff' = 0 /\ pc' = "idle" /\ pending' = 0 /\ pongleft' = 0
   /\ wcur' = 0 /\ wleft' = 0 /\ wlen' = 0 /\ nwrites' = 0 /\ wafter' = FALSE
-  /\ out' = <<>> /\ units' = <<>> /\ results' = <<>>
+  /\ out' = <<>> /\ units' = <<>> /\ held' = <<>> /\ blocked' = FALSE /\ nblock' = 0 /\ results' = <<>>
   /\ nerr' = 0 /\ npend' = 0 /\ ncancel' = 0 /\ ntimeout' = 0
   /\ hist' = <<>> /\ rcount' = 0 /\ ucount' = 0
 
